@@ -747,6 +747,10 @@ func (fr *Frame) val(v ssa.Value) *Term {
 		return t
 	case *ssa.Global:
 		t := f.Var("glob."+sanitize(x.String()), SInt)
+		if _, seen := ex.closures[t]; !seen {
+			ex.closures[t] = nil // marker: address of a package-level variable, never nil
+			ex.assumes = append(ex.assumes, f.Gt(t, f.Int(0)))
+		}
 		return t
 	case *ssa.Builtin:
 		return f.Var("builtin."+x.Name(), SInt)
@@ -1323,7 +1327,12 @@ func (fr *Frame) step(st *State, in ssa.Instruction) bool {
 	case *ssa.ChangeType:
 		v := fr.val(x.X)
 		if v.sort != ex.tm.SortOf(x.Type()) {
-			v = ex.freshOf(st, "changetype", x.Type())
+			if v.sort == ArraySort(SStr, SInt) && ex.tm.SortOf(x.Type()) == Sort("Slice") {
+				// Coins -> []Coin (the variadic form coins.Add(other...)): the coin-set value is kept; the library
+				// models accept it where a coin list is expected
+			} else {
+				v = ex.freshOf(st, "changetype", x.Type())
+			}
 		}
 		fr.env[x] = v
 	case *ssa.ChangeInterface:
